@@ -319,6 +319,16 @@ def get_type_hints(
             Whether to pull type hints from the signature of the object if
             none can be found via [`typing.get_type_hints`][]. (defaults True)
     """
+    # A parameterised user generic (`Box[int]`) has the hints of its class,
+    #   with the type-variables of the class replaced by the given arguments.
+    base = tp.get_origin(obj)
+    params = getattr(base, "__parameters__", None)
+    if inspect.isclass(base) and params and isinstance(params, tuple):
+        given = dict(zip(params, tp.get_args(obj)))
+        return {
+            f: _specialize(t, given)
+            for f, t in get_type_hints(base, exhaustive=exhaustive).items()
+        }
     try:
         hints = tp.get_type_hints(obj)
     except (NameError, TypeError):
@@ -329,6 +339,19 @@ def get_type_hints(
     if not hints and exhaustive:
         hints = _hints_from_signature(obj)
     return hints
+
+
+def _specialize(t: tp.Any, given: tp.Mapping[tp.Any, tp.Any]) -> tp.Any:
+    if t in given:
+        return given[t]
+    # A postponed annotation naming the type-variable.
+    if isinstance(t, tp.ForwardRef):
+        named = {p.__name__: a for p, a in given.items()}
+        return named.get(t.__forward_arg__, t)
+    params = getattr(t, "__parameters__", None)
+    if params and any(p in given for p in params):
+        return t[tuple(given.get(p, p) for p in params)]
+    return t
 
 
 def _hints_from_signature(obj: tp.Union[type, tp.Callable]) -> dict[str, type[tp.Any]]:
